@@ -47,6 +47,48 @@ Section Spec.
   Proof. intros H. split; apply connected_mono; intros x Hx; apply H; auto. Qed.
 End Spec.
 
+Lemma Forall2_impl_in {A B} (P Q : A -> B -> Prop) l l' :
+  (forall a b, In a l -> In b l' -> P a b -> Q a b) -> Forall2 P l l' -> Forall2 Q l l'.
+Proof.
+  intros H F. induction F; constructor.
+  - apply H; auto using in_eq.
+  - apply IHF. intros a b Ha Hb. apply H; auto using in_cons.
+Qed.
+
+(* two duplicate-free lists related by a relation that is a bijection between
+   their elements are equal up to a permutation *)
+Lemma bij_perm {A B} (R : A -> B -> Prop) : forall (l : list A) (l' : list B),
+  NoDup l -> NoDup l' ->
+  (forall a, In a l -> exists b, In b l' /\ R a b) ->
+  (forall b, In b l' -> exists a, In a l /\ R a b) ->
+  (forall a a' b, In a l -> In a' l -> In b l' -> R a b -> R a' b -> a = a') ->
+  (forall a b b', In a l -> In b l' -> In b' l' -> R a b -> R a b' -> b = b') ->
+  exists l'', Permutation l' l'' /\ Forall2 R l l''.
+Proof.
+  induction l as [|a t IH]; intros l' Hn Hn' Hf Hg Hinj Hfun.
+  - destruct l' as [|b l']; [exists []; split; constructor|].
+    destruct (Hg b (or_introl eq_refl)) as [a [[] _]].
+  - destruct (Hf a (or_introl eq_refl)) as [b [Hb Rab]].
+    destruct (in_split _ _ Hb) as [l1 [l2 ->]].
+    pose proof (NoDup_remove _ _ _ Hn') as [Hn2 Hnb].
+    inversion Hn as [|? ? Hna Hnt]; subst.
+    destruct (IH (l1 ++ l2)) as [l'' [P F]]; auto.
+    + intros a2 Ha2. destruct (Hf a2 (or_intror Ha2)) as [b2 [Hb2 R2]]. exists b2. split; auto.
+      apply in_app_or in Hb2. apply in_or_app. destruct Hb2 as [H|[H|H]]; auto.
+      subst b2. exfalso. apply Hna. rewrite (Hinj a a2 b); auto using in_eq, in_cons.
+    + intros b2 Hb2. assert (Hb2' : In b2 (l1 ++ b :: l2)).
+      { apply in_app_or in Hb2. apply in_or_app. destruct Hb2; [left | right; right]; auto. }
+      destruct (Hg b2 Hb2') as [a2 [[<-|Ha2] R2]]; [|eauto].
+      exfalso. apply Hnb. rewrite (Hfun a b b2); auto using in_eq.
+    + intros a1 a2 b0 H1 H2 H3. apply Hinj; auto using in_cons.
+      apply in_app_or in H3. apply in_or_app. destruct H3; [left | right; right]; auto.
+    + intros a1 b1 b2 H1 H2 H3. apply Hfun; auto using in_cons;
+        [apply in_app_or in H2 | apply in_app_or in H3]; apply in_or_app;
+        match goal with H : _ \/ _ |- _ => destruct H; [left | right; right]; auto end.
+    + exists (b :: l''). split; [|constructor; auto].
+      apply Permutation_sym. apply Permutation_cons_app. apply Permutation_sym. exact P.
+Qed.
+
 Section Components.
   Context {C : Type}.
   Variable cle : C -> C -> bool.
@@ -202,7 +244,7 @@ Section Components.
     assert (Hmk : forall k, In k (fst m) <-> In k keys \/ exists g, In g gs /\ hit keys g = true /\ In k (fst g))
       by (intros; apply mgroup_keys).
     assert (Hk0 : In (KActor (c_actor c)) keys) by apply actor_key_in.
-    assert (Hmiss : forall g k, hit keys g = false -> In k (fst g) -> In k keys -> False).
+    assert (Hmiss : forall (g : group) k, hit keys g = false -> In k (fst g) -> In k keys -> False).
     { intros g k Hh H1 H2. assert (hit keys g = true) by (apply hit_spec; eauto). congruence. }
     assert (Hdone : forall x, In x (done ++ [c]) <-> In x done \/ x = c).
     { intros x. rewrite in_app_iff. simpl. intuition. }
@@ -229,7 +271,7 @@ Section Components.
     - (* NoDup *)
       apply (Permutation_NoDup (Permutation_sym HP)). constructor.
       + intros H. apply filter_In in H. destruct H as [_ H]. unfold miss in H.
-        destruct (hit keys m) eqn:E; [discriminate|]. apply (Hmiss m _ E); auto. apply Hmk; auto.
+        destruct (hit keys m) eqn:E; [discriminate|]. apply (Hmiss m (KActor (c_actor c)) E); auto. apply Hmk; auto.
       + apply NoDup_filter. apply (J1n _ _ I).
     - (* disjoint *)
       assert (Hone : forall h, In h gs -> hit keys h = false -> (exists k, In k (fst m) /\ In k (fst h)) -> False).
@@ -300,4 +342,270 @@ Section Components.
 
   Lemma inv_groups_of side : Inv side (groups_of cmax side).
   Proof. apply (inv_fold side [] [] inv_nil). Qed.
+
+  (* ---- consequences of the invariant ---- *)
+
+  Lemma inv_group_unique done gs c g g' :
+    Inv done gs -> In g gs -> In g' gs ->
+    (exists k, In k (cand_keys c) /\ In k (fst g)) -> member c g' -> g = g'.
+  Proof.
+    intros I Hg Hg' [k [Hk1 Hk2]] Hm. apply (J1 _ _ I); auto. exists k. split; auto.
+  Qed.
+
+  Lemma same_group_sym (gs : list group) a b : same_group gs a b -> same_group gs b a.
+  Proof. intros [g [H1 [H2 H3]]]. exists g. auto. Qed.
+
+  Lemma inv_connected_same_group done gs a b :
+    Inv done gs -> connected done a b ->
+    (In a done <-> In b done) /\ (In a done -> same_group gs a b).
+  Proof.
+    intros I H. induction H as [x y [Hx [Hy [k [Hk1 Hk2]]]]|x|x y _ IH|x y z _ IH1 _ IH2].
+    - split; [tauto|]. intros _.
+      destruct (J2a _ _ I x Hx) as [g [Hg Hmx]]. destruct (J2a _ _ I y Hy) as [h [Hh Hmy]].
+      assert (g = h) by (apply (J1 _ _ I); auto; exists k; split; [apply Hmx | apply Hmy]; auto).
+      subst. exists h. auto.
+    - split; [tauto|]. intros Hx. destruct (J2a _ _ I x Hx) as [g [Hg Hmx]]. exists g. auto.
+    - destruct IH as [E S]. split; [tauto|]. intros Hy. apply same_group_sym. tauto.
+    - destruct IH1 as [E1 S1], IH2 as [E2 S2]. split; [tauto|]. intros Hx.
+      destruct (S1 Hx) as [g [Hg [Hgx Hgy]]]. destruct (S2 (proj1 E1 Hx)) as [h [Hh [Hhy Hhz]]].
+      assert (g = h).
+      { apply (J1 _ _ I); auto. exists (KActor (c_actor y)). split; [apply Hgy | apply Hhy]; apply actor_key_in. }
+      subst. exists h. auto.
+  Qed.
+
+  Lemma inv_components done gs a b :
+    Inv done gs -> In a done -> In b done -> (same_group gs a b <-> connected done a b).
+  Proof.
+    intros I Ha Hb. split.
+    - intros [g [Hg [H1 H2]]]. eapply (J3 _ _ I); eauto.
+    - intros H. apply (inv_connected_same_group _ _ _ _ I H). exact Ha.
+  Qed.
+
+  (* (a) the groups are the connected components, each with the maximum of its members *)
+  Theorem groups_are_components side :
+    let gs := groups_of cmax side in
+    NoDup gs /\ disjoint_groups gs
+    /\ (forall c, In c side -> exists g, In g gs /\ member c g /\
+          forall g', In g' gs -> (exists k, In k (cand_keys c) /\ In k (fst g')) -> g' = g)
+    /\ (forall g k, In g gs -> In k (fst g) -> exists c, In c side /\ In k (cand_keys c) /\ member c g)
+    /\ (forall a b, In a side -> In b side -> (same_group gs a b <-> connected side a b))
+    /\ (forall g, In g gs -> is_max_of side g).
+  Proof.
+    intros gs. pose proof (inv_groups_of side) as I. fold gs in I.
+    split; [apply (J1n _ _ I)|]. split; [apply (J1 _ _ I)|]. split; [|split; [|split]].
+    - intros c Hc. destruct (J2a _ _ I c Hc) as [g [Hg Hm]]. exists g. split; auto. split; auto.
+      intros g' Hg' Hov. eapply inv_group_unique; eauto.
+    - intros g k Hg Hk. destruct (J2b _ _ I g k Hg Hk) as [c [Hc Hkc]]. exists c. split; auto. split; auto.
+      eapply inv_member_key; eauto.
+    - intros a b Ha Hb. apply inv_components; auto.
+    - apply (J4 _ _ I).
+  Qed.
+
+  (* ---- (b) recording order ---- *)
+
+  Variable ceq : C -> C -> Prop.
+  Hypothesis cle_antisym : forall a b, cle a b = true -> cle b a = true -> ceq a b.
+
+  Lemma groups_perm_rel side side' :
+    Permutation side side' ->
+    exists l, Permutation (groups_of cmax side') l /\
+      Forall2 (fun g g' => exists c, In c side /\ member c g /\ member c g' /\ ceq (snd g) (snd g'))
+        (groups_of cmax side) l.
+  Proof.
+    intros HP.
+    pose proof (inv_groups_of side) as I. pose proof (inv_groups_of side') as I'.
+    set (gs := groups_of cmax side) in *. set (gs' := groups_of cmax side') in *.
+    assert (Hs : forall x, In x side <-> In x side').
+    { intros x. split; apply Permutation_in; auto using Permutation_sym. }
+    assert (Hc : forall a b, connected side a b <-> connected side' a b) by (intros; apply connected_perm; auto).
+    set (R := fun g g' : group => exists c, In c side /\ member c g /\ member c g').
+    (* two groups related by R have the same members *)
+    assert (Hmem : forall g g' c2, In g gs -> In g' gs' -> R g g' -> In c2 side ->
+                     (member c2 g <-> member c2 g')).
+    { intros g g' c2 Hg Hg' [c [Hcs [Hm Hm']]] Hc2. split; intros H2.
+      - assert (S : same_group gs' c c2).
+        { apply (inv_components _ _ _ _ I'); try (apply Hs; auto). apply Hc.
+          apply (inv_components _ _ _ _ I); auto. exists g. auto. }
+        destruct S as [h [Hh [Hh1 Hh2]]].
+        assert (h = g'). { apply (J1 _ _ I'); auto. exists (KActor (c_actor c)). split; [apply Hh1 | apply Hm']; apply actor_key_in. }
+        subst; auto.
+      - assert (S : same_group gs c c2).
+        { apply (inv_components _ _ _ _ I); auto. apply Hc.
+          apply (inv_components _ _ _ _ I'); try (apply Hs; auto). exists g'. auto. }
+        destruct S as [h [Hh [Hh1 Hh2]]].
+        assert (h = g). { apply (J1 _ _ I); auto. exists (KActor (c_actor c)). split; [apply Hh1 | apply Hm]; apply actor_key_in. }
+        subst; auto. }
+    assert (Hle : forall g g', In g gs -> In g' gs' -> R g g' -> cle (snd g) (snd g') = true).
+    { intros g g' Hg Hg' HR. destruct (J4 _ _ I g Hg) as [_ [c3 [H1 [H2 H3]]]].
+      destruct (J4 _ _ I' g' Hg') as [Hub _]. rewrite <- H3. apply Hub; [apply Hs; auto|].
+      apply (Hmem g g' c3); auto. }
+    assert (Hge : forall g g', In g gs -> In g' gs' -> R g g' -> cle (snd g') (snd g) = true).
+    { intros g g' Hg Hg' HR. destruct (J4 _ _ I' g' Hg') as [_ [c3 [H1 [H2 H3]]]].
+      destruct (J4 _ _ I g Hg) as [Hub _]. rewrite <- H3. apply Hub; [apply Hs; auto|].
+      apply (Hmem g g' c3); auto. apply Hs; auto. }
+    destruct (bij_perm R gs gs') as [l [Hl1 Hl2]].
+    - apply (J1n _ _ I).
+    - apply (J1n _ _ I').
+    - intros g Hg. destruct (J4 _ _ I g Hg) as [_ [c [H1 [H2 _]]]].
+      destruct (J2a _ _ I' c (proj1 (Hs c) H1)) as [g' [Hg' Hm']]. exists g'. split; auto. exists c. auto.
+    - intros g' Hg'. destruct (J4 _ _ I' g' Hg') as [_ [c [H1 [H2 _]]]].
+      destruct (J2a _ _ I c (proj2 (Hs c) H1)) as [g [Hg Hm]]. exists g. split; auto. exists c. split; [apply Hs|]; auto.
+    - intros g1 g2 g' H1 H2 Hg' R1 R2. destruct R1 as [c1 [Hc1 [M1 M1']]].
+      assert (M2 : member c1 g2) by (apply (Hmem g2 g' c1); auto).
+      apply (J1 _ _ I); auto. exists (KActor (c_actor c1)). split; [apply M1 | apply M2]; apply actor_key_in.
+    - intros g g1' g2' Hg H1 H2 R1 R2. destruct R1 as [c1 [Hc1 [M1 M1']]].
+      assert (M2 : member c1 g2') by (apply (Hmem g g2' c1); auto).
+      apply (J1 _ _ I'); auto. exists (KActor (c_actor c1)). split; [apply M1' | apply M2]; apply actor_key_in.
+    - exists l. split; auto.
+      apply (Forall2_impl_in R); auto.
+      intros g g' Hg Hg' HR.
+      assert (Hg'' : In g' gs') by (eapply Permutation_in; [apply Permutation_sym; exact Hl1 | exact Hg']).
+      destruct HR as [c [Hc1 [Hc2 Hc3]]]. exists c. repeat split; auto.
+      apply cle_antisym; [apply Hle | apply Hge]; auto; exists c; auto.
+  Qed.
 End Components.
+
+Lemma Forall2_len {A B} (R : A -> B -> Prop) l l' : Forall2 R l l' -> List.length l = List.length l'.
+Proof. induction 1; simpl; auto. Qed.
+
+Lemma Permutation_filter' {A} (f : A -> bool) l l' :
+  Permutation l l' -> Permutation (filter f l) (filter f l').
+Proof.
+  induction 1 as [|x l l' _ IH|x y l|l l' l'' _ IH1 _ IH2]; simpl.
+  - constructor.
+  - destruct (f x); auto.
+  - destruct (f x), (f y); auto using perm_swap.
+  - eapply Permutation_trans; eauto.
+Qed.
+
+Section Order.
+  Context {C : Type}.
+  Variable cle : C -> C -> bool.
+  Hypothesis cle_total : forall a b, cle a b = true \/ cle b a = true.
+  Hypothesis cle_trans : forall a b c, cle a b = true -> cle b c = true -> cle a c = true.
+  Variable ceq : C -> C -> Prop.
+  Hypothesis cle_antisym : forall a b, cle a b = true -> cle b a = true -> ceq a b.
+  Notation cmax := (cmax_of cle).
+
+  (* (b) the number of groups and the multiset of group maxima do not depend on
+     the recording order *)
+  Theorem aggregate_perm_gen side side' :
+    Permutation side side' ->
+    List.length (groups_of cmax side) = List.length (groups_of cmax side') /\
+    exists ms, Permutation (map snd (groups_of cmax side')) ms /\
+               Forall2 ceq (map snd (groups_of cmax side)) ms.
+  Proof.
+    intros HP.
+    destruct (groups_perm_rel cle cle_total cle_trans ceq cle_antisym side side' HP) as [l [P F]].
+    split.
+    - rewrite (Forall2_len _ _ _ F). symmetry. apply Permutation_length. exact P.
+    - exists (map snd l). split; [apply Permutation_map; exact P|].
+      clear P. induction F as [|g g' gs gs' [c [_ [_ [_ E]]]] _ IH]; simpl; constructor; auto.
+  Qed.
+
+  Variable score : list C -> C.
+  Variable czero : C.
+  Variable seq : C -> C -> Prop.
+  Hypothesis seq_zero : seq czero czero.
+  Hypothesis score_compat :
+    forall ms ms' l, Permutation ms' l -> Forall2 ceq ms l -> seq (score ms) (score ms').
+
+  Theorem aggregate_order_independent cs cs' opposing :
+    Permutation cs cs' ->
+    seq (fst (aggregate cmax score czero cs opposing)) (fst (aggregate cmax score czero cs' opposing)) /\
+    snd (aggregate cmax score czero cs opposing) = snd (aggregate cmax score czero cs' opposing).
+  Proof.
+    intros HP. unfold aggregate.
+    pose proof (Permutation_filter' (on_side opposing) _ _ HP) as HS. fold (side_of opposing cs) (side_of opposing cs') in HS.
+    destruct (aggregate_perm_gen _ _ HS) as [HL [ms [P F]]].
+    destruct (side_of opposing cs) as [|a s] eqn:E1, (side_of opposing cs') as [|a' s'] eqn:E2.
+    - simpl. auto.
+    - apply Permutation_nil in HS. discriminate.
+    - apply Permutation_sym, Permutation_nil in HS. discriminate.
+    - simpl fst. simpl snd. split; [eapply score_compat; eauto | exact HL].
+  Qed.
+End Order.
+
+(* Leibniz antisymmetry: the multisets of maxima are equal *)
+Theorem aggregate_perm {C : Type} (cle : C -> C -> bool) :
+  (forall a b, cle a b = true \/ cle b a = true) ->
+  (forall a b c, cle a b = true -> cle b c = true -> cle a c = true) ->
+  (forall a b, cle a b = true -> cle b a = true -> a = b) ->
+  forall side side' : list (cand C), Permutation side side' ->
+    List.length (groups_of (cmax_of cle) side) = List.length (groups_of (cmax_of cle) side') /\
+    Permutation (map snd (groups_of (cmax_of cle) side)) (map snd (groups_of (cmax_of cle) side')).
+Proof.
+  intros Ht Htr Ha side side' HP.
+  destruct (aggregate_perm_gen cle Ht Htr eq Ha side side' HP) as [HL [ms [P F]]].
+  split; auto.
+  assert (map snd (groups_of (cmax_of cle) side) = ms).
+  { clear P. induction F; [reflexivity | f_equal; auto]. }
+  subst ms. apply Permutation_sym. exact P.
+Qed.
+
+(* ---------- the exact instance: rationals, Qle_bool, qscore ---------- *)
+From Coq Require Import QArith Lqa.
+
+Definition qgeb (a b : Q) : bool := Qle_bool b a.
+Definition qltb (a b : Q) : bool := negb (Qle_bool b a).
+
+Lemma qle_total a b : Qle_bool a b = true \/ Qle_bool b a = true.
+Proof. rewrite !Qle_bool_iff. destruct (Qlt_le_dec a b) as [H|H]; [left; apply Qlt_le_weak|right]; auto. Qed.
+Lemma qle_trans a b c : Qle_bool a b = true -> Qle_bool b c = true -> Qle_bool a c = true.
+Proof. rewrite !Qle_bool_iff. apply Qle_trans. Qed.
+Lemma qle_antisym a b : Qle_bool a b = true -> Qle_bool b a = true -> (a == b)%Q.
+Proof. rewrite !Qle_bool_iff. apply Qle_antisym. Qed.
+
+Lemma qclamp_compat a b : (a == b)%Q -> (qclamp a == qclamp b)%Q.
+Proof.
+  intros H. unfold qclamp.
+  assert (E0 : Qle_bool a 0 = Qle_bool b 0) by (rewrite H; reflexivity).
+  assert (E1 : Qle_bool 1 a = Qle_bool 1 b) by (rewrite H; reflexivity).
+  rewrite E0, E1. destruct (Qle_bool b 0); [reflexivity|]. destruct (Qle_bool 1 b); [reflexivity | exact H].
+Qed.
+
+Lemma qprod_compat : forall ms ms', Forall2 Qeq ms ms' -> forall a a', (a == a')%Q -> (qprod ms a == qprod ms' a')%Q.
+Proof.
+  induction 1 as [|x y l l' Hxy _ IH]; intros a a' Ha; simpl; [exact Ha|].
+  apply IH. rewrite Ha, (qclamp_compat _ _ Hxy). reflexivity.
+Qed.
+
+Lemma qscore_compat ms ms' l :
+  Permutation ms' l -> Forall2 Qeq ms l -> (qscore ms == qscore ms')%Q.
+Proof.
+  intros P F. rewrite (qscore_perm _ _ P). unfold qscore. fold (qprod ms 1) (qprod l 1).
+  rewrite (qprod_compat _ _ F 1 1); reflexivity.
+Qed.
+
+Lemma classify_Qeq s s' o o' sg og nu (p : thresholds Q) :
+  (s == s')%Q -> (o == o')%Q ->
+  classify qgeb qltb s o sg og nu p = classify qgeb qltb s' o' sg og nu p.
+Proof.
+  intros Hs Ho. unfold classify, qgeb, qltb.
+  assert (E : forall t, Qle_bool t s = Qle_bool t s') by (intros t; rewrite Hs; reflexivity).
+  assert (F : forall t, Qle_bool t o = Qle_bool t o') by (intros t; rewrite Ho; reflexivity).
+  rewrite !E, !F. reflexivity.
+Qed.
+
+Lemma qmax_is_cmax : qmax = cmax_of Qle_bool.
+Proof. reflexivity. Qed.
+
+(* the aggregate (score, count) on both sides and the classification do not
+   depend on the order in which the assertions were recorded *)
+Theorem projection_order_independent_Q (cs cs' : list (cand Q)) nu (p : thresholds Q) :
+  Permutation cs cs' ->
+  let a := aggregate qmax qscore 0%Q in
+  (fst (a cs false) == fst (a cs' false))%Q /\ snd (a cs false) = snd (a cs' false) /\
+  (fst (a cs true) == fst (a cs' true))%Q /\ snd (a cs true) = snd (a cs' true) /\
+  classify qgeb qltb (fst (a cs false)) (fst (a cs true)) (snd (a cs false)) (snd (a cs true)) nu p =
+  classify qgeb qltb (fst (a cs' false)) (fst (a cs' true)) (snd (a cs' false)) (snd (a cs' true)) nu p.
+Proof.
+  intros HP a. unfold a. rewrite qmax_is_cmax.
+  assert (H : forall opp,
+    (fst (aggregate (cmax_of Qle_bool) qscore 0%Q cs opp) == fst (aggregate (cmax_of Qle_bool) qscore 0%Q cs' opp))%Q /\
+    snd (aggregate (cmax_of Qle_bool) qscore 0%Q cs opp) = snd (aggregate (cmax_of Qle_bool) qscore 0%Q cs' opp)).
+  { intros opp. apply (aggregate_order_independent Qle_bool qle_total qle_trans Qeq qle_antisym qscore 0%Q Qeq);
+      [reflexivity | apply qscore_compat | exact HP]. }
+  destruct (H false) as [S1 N1], (H true) as [S2 N2].
+  repeat split; auto. rewrite N1, N2. apply classify_Qeq; auto.
+Qed.
